@@ -93,35 +93,34 @@ func C05(r *Run) *core.Report {
 			}
 			rep.Fn(fn(w))
 			found := false
-			core.Instrs(w, func(in ssa.Instruction) {
-				c, ok := in.(ssa.CallInstruction)
-				if !ok || core.Callee(c) != mm.Core {
-					return
-				}
+			if c, host := coreCallOf(mm, w, 0); c != nil {
+				in := c.(ssa.Instruction)
 				found = true
 				var got []bool
+				constOK := true
 				for i, a := range c.Common().Args {
 					if i < len(mm.Core.Params) && isBoolParam(mm.Core.Params[i]) {
 						b, isC := core.ConstBool(a)
 						if !isC {
+							constOK = false
 							rep.Fail("C05.F3", fn(w)+" mode", r.P.InstrPos(in), "mode argument is not a constant")
-							return
 						}
 						got = append(got, b)
 					}
 				}
-				okm := len(got) == 2 && got[0] == want[0] && got[1] == want[1]
-				rep.Check(okm, "C05.F3", fn(w)+" mode", r.P.InstrPos(in), fmt.Sprintf("calls the core with (loadIfExists,computeOnly)=%v", want),
-					fmt.Sprintf("calls the compute core with mode %v, the operation's contract needs %v (e.g. a get-or-create that does not load-if-exists overwrites the winner's value)", got, want))
-				// user function argument
-				for i, a := range c.Common().Args {
-					if i < len(mm.Core.Params) && isFuncTyped(mm.Core.Params[i].Type()) {
-						c05adapter(r, rep, w, a, in)
+				if constOK {
+					okm := len(got) == 2 && got[0] == want[0] && got[1] == want[1]
+					rep.Check(okm, "C05.F3", fn(w)+" mode", r.P.InstrPos(in), fmt.Sprintf("reaches the core with (loadIfExists,computeOnly)=%v", want),
+						fmt.Sprintf("reaches the compute core with mode %v, the operation's contract needs %v (e.g. a get-or-create that does not load-if-exists overwrites the winner's value)", got, want))
+					for i, a := range c.Common().Args {
+						if i < len(mm.Core.Params) && isFuncTyped(mm.Core.Params[i].Type()) {
+							c05adapter(r, rep, host, w, a, in)
+						}
 					}
 				}
-			})
+			}
 			if !found {
-				rep.Fail("C05.F3", fn(w)+" mode", r.P.Pos(w.Pos()), "wrapper does not call the compute core")
+				rep.Fail("C05.F3", fn(w)+" mode", r.P.Pos(w.Pos()), "wrapper does not reach the compute core")
 			}
 		}
 	}
@@ -154,22 +153,17 @@ func modeFlag(mm *core.MapModel, sp core.Spec, idx int) (bool, bool) {
 
 // c05adapter: the function value a wrapper hands to the core is the user's own function, or a closure
 // that calls the user's function exactly once on every path (or not at all for the constant adapters).
-func c05adapter(r *Run, rep *core.Report, w *ssa.Function, arg ssa.Value, at ssa.Instruction) {
-	var cl *ssa.Function
-	switch x := core.StripConv(arg).(type) {
-	case *ssa.Parameter:
+func c05adapter(r *Run, rep *core.Report, host, w *ssa.Function, arg ssa.Value, at ssa.Instruction) {
+	if _, isP := core.StripConv(arg).(*ssa.Parameter); isP {
 		rep.Pass("C05.F3", fn(w)+" adapter", r.P.InstrPos(at), "passes the user's function itself")
 		return
-	case *ssa.MakeClosure:
-		cl = x.Fn.(*ssa.Function)
-	case *ssa.Function:
-		cl = x
 	}
+	cl, _ := funcOfValue(arg, 0)
 	switch {
 	case cl != nil:
 		// count dynamic calls of captured function values on every path
 		userWrapper := false
-		for _, p := range w.Params {
+		for _, p := range host.Params {
 			if isFuncTyped(p.Type()) {
 				userWrapper = true
 			}
@@ -219,13 +213,25 @@ func c05F4(r *Run, rep *core.Report) {
 			// exactly one deciding Compute is today's shape; what is necessary is that no unconditional
 			// mutation follows an observation (checked above) and that some atomic read-modify-write exists
 			hasRMW := false
-			core.Instrs(f, func(in ssa.Instruction) {
-				if c, ok := in.(ssa.CallInstruction); ok {
-					if meth, _, ok := r.M.ItemsInvoke(c); ok && (meth == "Compute" || meth == "LoadOrCompute" || meth == "LoadOrStore" || meth == "LoadAndStore") {
-						hasRMW = true
-					}
+			seenF := map[*ssa.Function]bool{}
+			var scan func(g *ssa.Function, d int)
+			scan = func(g *ssa.Function, d int) {
+				if g == nil || seenF[g] || d > 4 {
+					return
 				}
-			})
+				seenF[g] = true
+				core.Instrs(g, func(in ssa.Instruction) {
+					if c, ok := in.(ssa.CallInstruction); ok {
+						if meth, _, ok := r.M.ItemsInvoke(c); ok && (meth == "Compute" || meth == "LoadOrCompute" || meth == "LoadOrStore" || meth == "LoadAndStore") {
+							hasRMW = true
+						}
+						if cal := core.Callee(c); cal != nil && cal.Pkg == r.P.Cache {
+							scan(cal, d+1)
+						}
+					}
+				})
+			}
+			scan(f, 0)
 			rep.Check(hasRMW, "C05.F4", fn(f)+" atomic read-modify-write", r.P.Pos(f.Pos()), "decides through an atomic read-modify-write of the underlying map", "no atomic read-modify-write operation of the underlying map is used: the method cannot be atomic per key")
 			// the user's function must not be called by the method body itself (outside the key's atomic section)
 			core.Instrs(f, func(in ssa.Instruction) {
